@@ -399,6 +399,13 @@ V("TBf-benign-literal", "C12", None,
 V("TT1-linspace-off-by-one", "C12", "TT1",
   ("tdms.py", "            offset + (len(self) - 1) * increment,\n", "            offset + len(self) * increment,\n"))
 
+V("MP3-cache-stores-raw-chunk", "C03", "MP3",
+  ("tdms.py", "        self._cached_chunk = scaled_chunk\n", "        self._cached_chunk = chunk.data\n"))
+V("MP3-data-property-skips-scaling", "C03", "MP3",
+  ("tdms.py", "        return self._scale_data(self._raw_data)\n", "        return self._raw_data.data\n"))
+V("MP3-double-scaling", "C03", "MP3",
+  ("tdms.py", "        return self._scale_data(self._raw_data)\n", "        once = self._scale_data(self._raw_data)\n        return self._scaling.scale(once) if self._scaling is not None else once\n"))
+
 # ---------------------------------------------------------------- C16 (PT1-PT4)
 V("PT1-no-doubling", "C16", "PT1",
   ("common.py", "        [\"'\" + c.replace(\"'\", \"''\") + \"'\" for c in components]))", "        [\"'\" + c + \"'\" for c in components]))"))
